@@ -79,6 +79,7 @@ class Harness(cm.BaseB):
             out.append({"k": "dev", "dev": dev, "maxdev": 2 if tier == "quick" else 3})
             out.append({"k": "shapes", "dev": dev})
             out.append({"k": "reuse", "dev": dev})
+            out.append({"k": "nosplit", "dev": dev})
             out.append({"k": "invalid", "dev": dev})
         return out
 
@@ -103,6 +104,14 @@ class Harness(cm.BaseB):
                     for li in fam:
                         for pb in ("auto", "destination") if nd > 1 else ("auto", "source", "destination"):
                             yield {"k": "t", "dev": chunk["dev"], "src": "plate" if (sum(li) + nd) % 2 else "trough", "dst": "plate", "tr": li, "pb": pb, "opts": list(combo)}
+        elif chunk["k"] == "nosplit":
+            small = [i for i, t in enumerate(TRIPLES) if t[2] in (0, 10, 45)]
+            for n in (1, 2, 3):
+                for li in itertools.product(small, repeat=n):
+                    if n == 3 and (li[0] + li[1] * 3 + li[2] * 7) % 6:
+                        continue
+                    for pb in ("auto", "destination"):
+                        yield {"k": "t", "dev": chunk["dev"], "src": "plate" if sum(li) % 2 else "trough", "dst": "plate", "tr": list(li), "pb": pb, "opts": [], "auto_split": False}
         elif chunk["k"] == "reuse":
             for first in ("plate", "trough"):
                 for li in subfamily()[:24]:
@@ -155,7 +164,7 @@ class Harness(cm.BaseB):
         gs, gd = GS[case["src"]], GD[dst_kind]
         o = dict((k, v) for k, v in opts)
         if wl is None:
-            wl = getattr(rt, case["dev"])(max_volume=MAXV, diti_mode=bool(o.get("diti")))
+            wl = getattr(rt, case["dev"])(max_volume=MAXV, diti_mode=bool(o.get("diti")), auto_split=case.get("auto_split", True))
         kw = {"partition_by": case["pb"]}
         if "wash" in o:
             kw["wash_scheme"] = o["wash"]
